@@ -96,7 +96,6 @@ def _history_A(job, dps, choose):
     r1 = Tree.from_dict(d)
     same_labels = (r1.labels == tree.labels and sorted(map(str, r1.nodes)) == sorted(map(str, tree.nodes)) and r1 == tree and hash(r1) == hash(tree)
                    and r1.node_last_added_to == tree.node_last_added_to)
-    live.append((tree, forest))
     f1 = forest
     ops2 = [o for o in edits.enumerate_ops(forest, spares) if o[0] not in ("copy", "dict_roundtrip", "relabel")]
     k2 = choose(len(ops2) + 1)
@@ -104,7 +103,14 @@ def _history_A(job, dps, choose):
         steps.append("restore; " + edits.describe(ops2[k2], forest))
         r1, forest, spares = edits.apply_op(ops2[k2], r1, forest, spares, dps, live)
     live.append((r1, forest))
-    r2 = Tree.from_dict(d)                      # particles restore the same dictionary many times
+    # the tree the dictionary was taken from keeps being edited in place (the subtree sampler hands all outliers of its
+    # input tree over to the subtree; SMC proposals add to a copy's clone): the recorded dictionary must not follow
+    for dp in tree.outliers:
+        tree.remove_data_point_from_outliers(dp)
+    if tree.roots:
+        extra = dps[job["total"]]
+        tree.add_data_point_to_node(extra, tree.roots[0])
+    r2 = Tree.from_dict(d)                      # particles and trace readers restore the same dictionary many times
     live.append((r2, f1))
     return steps, live, same_labels
 
@@ -112,7 +118,7 @@ def _history_A(job, dps, choose):
 def _work_roundtrip(job, res):
     from phyclone.tree import FSCRPDistribution, TreeJointDistribution
     G = job["G"]
-    dps = [sym_dp(i, 1, G) for i in range(job["total"])]
+    dps = [sym_dp(i, 1, G) for i in range(job["total"] + 1)]
     td = TreeJointDistribution(FSCRPDistribution(Lin(V.var("alpha"))))
     sample = {}
 
@@ -434,7 +440,7 @@ def replay(case):
     vals = case.get("values", {})
     it = iter(case.get("trace", []))
     if kind == "roundtrip":
-        dps = [float_dp(i, 1, job["G"], vals) for i in range(job["total"])]
+        dps = [float_dp(i, 1, job["G"], vals) for i in range(job["total"] + 1)]
         td = TreeJointDistribution(FSCRPDistribution(float(Fraction(vals.get("alpha", "7/10")))))
         try:
             steps, live, same_labels = _history_A(job, dps, lambda n: next(it, n - 1))
